@@ -42,6 +42,32 @@ func (w *walker) ref(kind string, p uintptr) (first bool) {
 	return !ok
 }
 
+// parentRef emits the identity of a parent link without descending into it.
+func (w *walker) parentRef(v reflect.Value) {
+	if v.Kind() == reflect.Interface {
+		if v.IsNil() {
+			w.str("nil")
+			return
+		}
+		v = v.Elem()
+	}
+	w.str("(" + v.Type().String() + ")")
+	if v.Kind() == reflect.Struct && v.NumField() == 1 && v.Field(0).Kind() == reflect.Ptr {
+		p := v.Field(0)
+		if p.IsNil() {
+			w.str("nil")
+			return
+		}
+		w.ref("^", p.Pointer())
+		return
+	}
+	if v.Kind() == reflect.Ptr && !v.IsNil() {
+		w.ref("^", v.Pointer())
+		return
+	}
+	w.str("?")
+}
+
 func (w *walker) walk(v reflect.Value) {
 	if !v.IsValid() {
 		w.str("<invalid>")
@@ -81,7 +107,10 @@ func (w *walker) walk(v reflect.Value) {
 			f := t.Field(i)
 			w.str(f.Name)
 			w.str(":")
-			if f.Type.Kind() == reflect.String && f.Type.Name() == "cacheID" && !w.addrs {
+			if f.Name == "parent" && t.Name() == "context" {
+				// positional metadata: the identity of the parent, not its contents
+				w.parentRef(v.Field(i))
+			} else if f.Type.Kind() == reflect.String && f.Type.Name() == "cacheID" && !w.addrs {
 				id := v.Field(i).String()
 				n, ok := w.ids[id]
 				if !ok {
